@@ -654,6 +654,14 @@ pub fn directed() -> Vec<Request> {
             });
         }
     }
+    // every unsupported / odd item form directly, under several trait lists, both entry points
+    for item in crate::gen::alt_items() {
+        let all = TRAITS.join(", ");
+        for attr in ["", "Clone", "Add, AddAssign", "Clone, dump", "Default(bound(T)), bound(..)", "Unknown", all.as_str()] {
+            out.push(Request { mode: Mode::Attr, attr: attr.into(), item: item.to_string() });
+            out.push(Request { mode: Mode::Derive, attr: String::new(), item: format!("#[derive_ex({attr})] {item}") });
+        }
+    }
     // normalise to the printed token form and drop what is not a valid request
     let mut res = Vec::new();
     let mut seen = std::collections::BTreeSet::new();
